@@ -28,6 +28,7 @@ type Named struct {
 	Text  string `json:"text"`
 	Regex bool   `json:"regex,omitempty"` // a regex schema instead of a JSight schema
 	File  string `json:"file,omitempty"`  // file name of the type's schema when it differs from Name
+	Own   []Named `json:"own,omitempty"`  // types this type registers on itself (AddType on the type's schema) before it is registered anywhere
 }
 
 func (n Named) FileName() string {
@@ -82,6 +83,9 @@ func (p Project) String() string {
 	b.WriteString(p.Root)
 	for _, t := range p.Types {
 		fmt.Fprintf(&b, "\n%s := %s", t.Name, t.Text)
+		for _, o := range t.Own {
+			fmt.Fprintf(&b, "\n  (registered on %s) %s := %s", t.Name, o.Name, o.Text)
+		}
 	}
 	for _, t := range p.Rules {
 		fmt.Fprintf(&b, "\nrule %s := %s", t.Name, t.Text)
@@ -266,6 +270,16 @@ func BuildSharing(p Project, from *Built) *Built {
 				r := r
 				b.trap("AddRule(type)", func() { _ = js.AddRule(r.Name, enum.New(r.Name, r.Text)) })
 			}
+			for _, o := range t.Own {
+				o := o
+				b.trap("AddType(own)", func() {
+					if o.Regex {
+						_ = js.AddType(o.Name, regex.New(o.FileName(), o.Text))
+					} else {
+						_ = js.AddType(o.Name, jschema.New(o.FileName(), o.Text))
+					}
+				})
+			}
 			ts = js
 		}
 		b.Types[t.Name] = ts
@@ -313,7 +327,11 @@ func typeKey(t Named) string {
 	if t.Regex {
 		return "regex:" + t.Text
 	}
-	return t.File + ":" + t.Text
+	k := t.File + ":" + t.Text
+	for _, o := range t.Own {
+		k += "\x01" + o.Name + "=" + typeKey(o)
+	}
+	return k
 }
 
 func (b *Built) typeText(name string) string {
